@@ -107,7 +107,48 @@ def site_kind(c):
     return hq.last(c)
 
 
+_OVF_ADD = re.compile(r"^Overflow\(Add, (?:move|copy) _(\d+), const (\d+)_usize\)$")
+_LEN_CALLS = ("std::vec::Vec::<T, A>::len", "core::slice::<impl [T]>::len", "std::slice::<impl [T]>::len")
+LEN_PLUS_CONST = []   # sites discharged structurally in the last collect_sites run: (function, file, line)
+
+
+def _sized_element(fx, gargs):
+    """the first generic argument of the len() call names a type of this crate that has a field or more than one variant (so it is not zero-sized:
+    a Vec / slice of it holds at most isize::MAX elements)"""
+    ty = (gargs or "").strip("[]").split(",")[0].strip()
+    if not ty or ty.startswith(("(", "[", "&")):
+        return False
+    return _sized(fx, ty, 0)
+
+
+def _sized(fx, ty, depth):
+    if ty in ("std::string::String", "usize", "isize", "u8", "char", "bool") or ty.startswith(("std::vec::Vec<", "std::boxed::Box<", "std::string::String")):
+        return True
+    a = fx.adts.get(ty)
+    if a is None or depth > 4:
+        return False
+    vs = a.get("variants", [])
+    return len(vs) > 1 or any(_sized(fx, f_.get("ty", ""), depth + 1) for v in vs for f_ in v.get("fields", []))
+
+
+def _len_plus_const(fx, m, bl):
+    """`xs.len() + K` with xs a Vec / slice of a non-zero-sized element type and K a small literal: the length is at most isize::MAX, the sum
+    cannot leave usize"""
+    t = bl["term"]
+    mm = _OVF_ADD.match(t.get("msg", ""))
+    if not mm or int(mm.group(2)) > 2 ** 31:
+        return False
+    loc = int(mm.group(1))
+    defs = [b2["term"] for b2 in m["blocks"] if b2["term"].get("t") == "Call" and b2["term"].get("dst") == loc]
+    assigns = [st for b2 in m["blocks"] for st in b2.get("stmts", []) if st.get("dst") == loc]
+    if len(defs) != 1 or assigns:
+        return False
+    c = defs[0]
+    return (c.get("callee_res") or c.get("callee")) in _LEN_CALLS and _sized_element(fx, c.get("gargs"))
+
+
 def collect_sites(fx, cg):
+    del LEN_PLUS_CONST[:]
     roots = ["command_line::procedures::main"]
     for b in fx.body_list:
         td = b.get("impl", {}).get("trait_def")
@@ -129,7 +170,10 @@ def collect_sites(fx, cg):
             if bl.get("cleanup"):
                 continue
             t = bl["term"]
-            if t.get("t") == "Assert" and t["assert"] not in ("MisalignedPointerDereference", "NullPointerDereference"):
+            if t.get("t") == "Assert" and t["assert"] == "Overflow" and _len_plus_const(fx, m, bl):
+                LEN_PLUS_CONST.append((owner, m["file"], t.get("line")))
+                continue
+            elif t.get("t") == "Assert" and t["assert"] not in ("MisalignedPointerDereference", "NullPointerDereference"):
                 k = (owner, "assert:" + t["assert"])
             elif t.get("t") == "Call":
                 c = t.get("callee_res") or t.get("callee") or ""
@@ -210,6 +254,8 @@ def rule_sites(ctx):
     ctx.count("functions_reachable", n_reach)
     ctx.count("roots", n_roots)
     ctx.floor("PANIC-TAB", "panic_sites", sum(sites.values()), 20)  # guard that the collector works; fewer sites is an improvement
+    for owner, f_, l_ in LEN_PLUS_CONST:
+        ctx.ok("PANIC-TAB", "len-plus-const:%s" % owner, "%s:%s" % (f_, l_), "`xs.len() + K` on a Vec / slice of a sized element type and a small literal K: a length is at most isize::MAX, the sum stays inside usize", nontrivial=False)
     # sites that left their listed function (helper extraction, code motion inside one file) leave slack for unlisted sites of the same
     # kind in the same file; a site that is new to the file exceeds the slack and is reported
     files = {b["def_path"]: b["file"] for b in fx.body_list}
